@@ -57,7 +57,7 @@ def inputs(ctx):
                 for ri, rf in ((False, False), (True, False), (False, True), (True, True)):
                     if (ri and m == 0) or (rf and n == 0):
                         continue                      # the same text as a style already listed
-                    p = 0.12 if quick else 1.0
+                    p = 0.5 if quick else 1.0
                     yield "field", dict(k=1, gen=0, u=u, pic=[0, signed, m, n, ri, rf], nav=rng.random() < p, seed=rng.randrange(1 << 30),
                                         no_usage=(u == DISPLAY and rng.random() < 0.3))
                     if rng.random() < (0.15 if quick else 1.0):
@@ -119,7 +119,8 @@ def make_value(c, rng):
     u, pic = c["u"], c["pic"]
     if pic[0] == 1:
         k = pic[2]
-        buf = [rng.randrange(256) for _ in range(k)]
+        letters = list(range(0xC1, 0xCA)) + list(range(0xD1, 0xDA)) + list(range(0xE2, 0xEA)) + list(range(0x81, 0x8A))
+        buf = [rng.choice(letters) if pic[1] else rng.randrange(256) for _ in range(k)]
         return [4], buf
     _, signed, m, n, _, _ = pic
     d = m + n
